@@ -91,7 +91,10 @@ fn main() {
         },
         Some("search") => {
             let max: usize = args[2].parse().unwrap();
-            let alphabet = ["a", "1", ".", " ", "\n", "//", "/*", "*/", "(", "§", "€", "\"", "+", "fn"];
+            // single characters, multi-byte characters (2, 3 and 4 bytes, incl. the byte order mark and a zero-width
+            // joiner), comment delimiters, CR/LF, tabs, string quotes, a keyword and a projection-like float
+            let alphabet = ["a", "1", ".", " ", "\n", "//", "/*", "*/", "(", "§", "€", "\"", "+", "fn",
+                            "\u{feff}", "\r\n", "\t", "é", "日", "𝄞", "\u{200d}", "0.1", "_", "|"];
             let mut frontier: Vec<String> = vec![String::new()];
             let mut tried = 0u64;
             for _ in 0..max {
